@@ -230,16 +230,27 @@ Proof.
   - simpl. rewrite Hid, Z.eqb_refl. reflexivity.
   - simpl. rewrite Ex. apply IH. exact Hf.
 Qed.
+Lemma nobug_app a b : nobug a -> nobug b -> nobug (a ++ b).
+Proof. unfold nobug. intros Ha Hb. rewrite has_bug_app, Ha, Hb. reflexivity. Qed.
+Lemma good_drop_data c id n code : Inv c -> good (drop_data c id n code).
+Proof.
+  intros H. unfold drop_data.
+  destruct (n =? 0); [apply good_reset_tickle; exact H|].
+  destruct (cinflow c <? n); [apply good_reset_tickle; exact H|].
+  destruct (good_reset_tickle c id code H) as [H1 H2].
+  destruct (then_tickle (reset_stream c id code)) as [c' fs]. simpl in *.
+  split; [exact H1|]. apply nobug_app; [apply nobug_emit; reflexivity|exact H2].
+Qed.
 Lemma good_process_data c id n fin : Inv c -> 0 <= n -> good (process_data c id n fin).
 Proof.
   intros H Hn. unfold process_data.
-  destruct (find_s id (strs c)) as [s|] eqn:Hf; [|apply good_reset_tickle; exact H].
+  destruct (find_s id (strs c)) as [s|] eqn:Hf; [|apply good_drop_data; exact H].
   pose proof (find_s_in _ _ _ Hf) as [_ Hid].
   assert (Hs : sok s) by (destruct H as (_ & _ & F); eapply find_s_ok; eauto).
-  destruct (sstate s =? 1) eqn:Est; cbn [negb]; [|apply good_reset_tickle; exact H].
+  destruct (sstate s =? 1) eqn:Est; cbn [negb]; [|apply good_drop_data; exact H].
   apply Z.eqb_eq in Est.
   destruct Hs as (Hs1 & Hs2 & Hs3 & Hs4). rewrite (Hs4 Est). cbn [negb].
-  destruct (negb (decl s =? -1) && (decl s <? bodyb s + n)); [apply good_reset_tickle; exact H|].
+  destruct (negb (decl s =? -1) && (decl s <? bodyb s + n)); [apply good_drop_data; exact H|].
   (* the FIN part *)
   assert (Hstep2 : forall c0 s0, Inv c0 -> find_s id (strs c0) = Some s0 ->
             good (if fin then
@@ -257,17 +268,17 @@ Proof.
   destruct (zmin (sinflow s) (cinflow c) <? n) eqn:Ew; [apply good_reset_tickle; exact H|].
   apply Z.ltb_ge in Ew. pose proof (zmin_le_l (sinflow s) (cinflow c)). pose proof (zmin_le_r (sinflow s) (cinflow c)).
   destruct (bclosed s || (INITWIN <? buf s + n)).
-  - apply good_reset_tickle.
-    change (upd (set_cin c (cinflow c - n)) (s_with_in s (sinflow s - n) (buf s) (bodyb s) 1))
-      with (upd (set_cin c (cinflow c - n)) (s_with_in s (sinflow s - n) (buf s) (bodyb s) 1)).
-    eapply Inv_account; [exact H|exact Hf|exact Hid| |lia|simpl; lia].
-    unfold sok. simpl. repeat split; try lia. intros _. apply Hs4. exact Est.
+  - assert (HI : Inv (upd c (s_with_in s (sinflow s - n) (buf s) (bodyb s) 1))).
+    { eapply Inv_upd_same; [exact H|exact Hf|exact Hid|reflexivity|].
+      unfold sok. simpl. repeat split; try lia. intros _. apply Hs4. exact Est. }
+    destruct (good_reset_tickle _ id 9 HI) as [HA HB].
+    destruct (then_tickle (reset_stream (upd c (s_with_in s (sinflow s - n) (buf s) (bodyb s) 1)) id 9)) as [c' fs].
+    simpl in *. split; [exact HA|]. apply nobug_app; [apply nobug_emit; reflexivity|exact HB].
   - set (s1 := s_with_in s (sinflow s - n) (buf s + n) (bodyb s + n) 1).
     assert (HI1 : Inv (upd (set_cin c (cinflow c - n)) s1)).
     { eapply Inv_account; [exact H|exact Hf|exact Hid| |lia|simpl; lia].
       unfold sok, s1. simpl. repeat split; try lia. intros _. apply Hs4. exact Est. }
     apply Hstep2; [exact HI1|].
-    (* the updated stream is the one found under id *)
     unfold upd, set_cin. cbn [strs]. apply (find_update id (strs c) s s1 Hf). exact Hid.
 Qed.
 
@@ -428,6 +439,29 @@ Proof.
     split; [|exact Hc]. cbn [existsb]. rewrite obs_not_bug. exact Hn.
 Qed.
 
+(* the scheduler never touches the inbound session window *)
+Lemma cinflow_take_head c id : cinflow (fst (take_head c id)) = cinflow c.
+Proof.
+  unfold take_head. destruct (find_s id (strs c)) as [s|]; [|reflexivity].
+  destruct (outq s) as [|[[k n] fin] q]; [reflexivity|].
+  destruct (negb (k =? 0)); [reflexivity|]. cbv zeta.
+  destruct ((n =? 0) || (n <=? zmin (zmin (soflow s) (cflow c)) MAXFRAME)); [|reflexivity].
+  destruct fin; reflexivity.
+Qed.
+Lemma cinflow_sched f : forall c, cinflow (fst (sched f c)) = cinflow c.
+Proof.
+  induction f as [|f IH]; intros c; cbn [sched]; [reflexivity|].
+  destruct (muted c); [reflexivity|].
+  destruct (find head_nocost (strs c)) as [s|].
+  - pose proof (cinflow_take_head c (sid s)) as H1. destruct (take_head c (sid s)) as [c1 f1].
+    specialize (IH c1). destruct (sched f c1) as [c2 f2]. simpl in *. congruence.
+  - destruct (find (head_sendable c) (strs c)) as [s|]; [|reflexivity].
+    pose proof (cinflow_take_head c (sid s)) as H1. destruct (take_head c (sid s)) as [c1 f1].
+    specialize (IH c1). destruct (sched f c1) as [c2 f2]. simpl in *. congruence.
+Qed.
+Lemma cinflow_tickle c : cinflow (fst (tickle c)) = cinflow c.
+Proof. apply cinflow_sched. Qed.
+
 (* ---------- rule lemmas (single events, any state) ---------- *)
 Lemma then_tickle_head c f fs : exists c' fs', then_tickle (c, f :: fs) = (c', f :: fs').
 Proof. unfold then_tickle. destruct (tickle c) as [c' fs']. eexists. eexists. reflexivity. Qed.
@@ -456,20 +490,25 @@ Proof.
   assert (E2 : (INITWIN <? buf s + n) = false) by (apply Z.ltb_ge; lia). rewrite E2. reflexivity.
 Qed.
 
-(* frames for a stream that is not in the table are answered with RST_STREAM(INVALID_STREAM) *)
+(* frames for a stream that is not in the table are answered with RST_STREAM(INVALID_STREAM), and the
+   bytes are returned at session level first (or FLOW_CONTROL_ERROR if they exceed the session window) *)
 Lemma data_unknown_stream c id n fin :
-  find_s id (strs c) = None ->
-  exists c' fs, process_data c id n fin = (c', emit c [f_rst id 2] ++ fs).
+  find_s id (strs c) = None -> 0 < n -> n <= cinflow c ->
+  exists c' fs, process_data c id n fin = (c', emit c [f_wu 0 n] ++ emit c [f_rst id 2] ++ fs) /\ cinflow c' = cinflow c.
 Proof.
-  intros Hf. unfold process_data, reset_stream. rewrite Hf. unfold then_tickle.
-  destruct (tickle c) as [c' fs']. eexists. eexists. reflexivity.
+  intros Hf Hn Hw. unfold process_data, drop_data, reset_stream. rewrite Hf.
+  assert (E0 : (n =? 0) = false) by (apply Z.eqb_neq; lia). rewrite E0.
+  assert (E1 : (cinflow c <? n) = false) by (apply Z.ltb_ge; lia). rewrite E1.
+  unfold then_tickle.
+  pose proof (cinflow_tickle c) as Hc.
+  destruct (tickle c) as [c' fs']. eexists. eexists. split; [reflexivity|exact Hc].
 Qed.
 (* ... and for a stream the client already half-closed with RST_STREAM(STREAM_ALREADY_CLOSED), closing it *)
 Lemma data_closed_stream c id n fin s :
   find_s id (strs c) = Some s -> sstate s <> 1 ->
-  process_data c id n fin = then_tickle (close_s c id, emit c [f_rst id 9]).
+  process_data c id n fin = drop_data c id n 9.
 Proof.
-  intros Hf Hst. unfold process_data, reset_stream. rewrite Hf.
+  intros Hf Hst. unfold process_data. rewrite Hf.
   destruct (sstate s =? 1) eqn:E; [apply Z.eqb_eq in E; contradiction|]. reflexivity.
 Qed.
 
@@ -528,11 +567,17 @@ Proof.
 Qed.
 
 (* ---------- refutation of conservation (known finding 1) ---------- *)
-(* client: DATA 1000 bytes on a stream that does not exist, then opens stream 1, sends 65536 bytes, the handler
-   reads everything.  1000 bytes of session window are never returned. *)
+(* client: opens stream 1, sends 1000 bytes, resets the stream before the handler reads them; then uses
+   stream 3 normally.  The 1000 unread bytes of session window are never returned. *)
 Definition w_leak : val :=
+  VL [VZ 200; VL [VL [VZ 1; VZ 1; VZ 0; VZ (-1); VZ 0]; VL [VZ 2; VZ 1; VZ 1000; VZ 0]; VL [VZ 4; VZ 1; VZ 5];
+                  VL [VZ 1; VZ 3; VZ 0; VZ (-1); VZ 0]; VL [VZ 2; VZ 3; VZ 64536; VZ 0]; VL [VZ 5; VZ 3; VZ 70000]]].
+(* DATA for a stream that does not exist is returned at once (fixed in /repo): the property holds *)
+Definition w_dropped : val :=
   VL [VZ 200; VL [VL [VZ 2; VZ 5; VZ 1000; VZ 0]; VL [VZ 1; VZ 1; VZ 0; VZ (-1); VZ 0];
-                  VL [VZ 2; VZ 1; VZ 64536; VZ 0]; VL [VZ 5; VZ 1; VZ 70000]]].
+                  VL [VZ 2; VZ 1; VZ 65536; VZ 0]; VL [VZ 5; VZ 1; VZ 70000]]].
+Lemma dropped_lemma : prop_C40 w_dropped (run_C40 w_dropped) = true /\ kf_C40 w_dropped = 0.
+Proof. vm_compute. split; reflexivity. Qed.
 Lemma leak_lemma : prop_C40 w_leak (run_C40 w_leak) = false /\ kf_C40 w_leak = 1.
 Proof. vm_compute. split; reflexivity. Qed.
 (* the same exchange without the stray DATA frame satisfies the property *)
